@@ -659,10 +659,17 @@ impl GraphTensor {
     #[must_use]
     pub fn restore(snapshot: GraphTensorSnapshot) -> Self {
         let graph = Self::new();
+        graph.restore_from(snapshot);
+        graph
+    }
+
+    /// Replaces the contents of this graph with a snapshot's, in place.
+    pub fn restore_from(&self, snapshot: GraphTensorSnapshot) {
+        self.clear();
 
         // Restore edge types using consolidated registry
         {
-            let mut registry = graph.edge_types.write();
+            let mut registry = self.edge_types.write();
             registry.types.clear();
             registry.ids.clear();
             for (idx, type_name) in snapshot.edge_types.iter().enumerate() {
@@ -676,23 +683,19 @@ impl GraphTensor {
         // Restore edges
         for edge in snapshot.edges {
             let edge_type = &snapshot.edge_types[edge.edge_type_idx as usize];
-            graph.add_edge(edge.from, edge.to, edge_type, edge.directed);
+            self.add_edge(edge.from, edge.to, edge_type, edge.directed);
         }
 
         // Restore counters
-        graph
-            .next_edge_id
+        self.next_edge_id
             .store(snapshot.next_edge_id, Ordering::Relaxed);
-        graph
-            .max_node_id
+        self.max_node_id
             .store(snapshot.max_node_id, Ordering::Relaxed);
 
         // Restore edge data
         for (key, data) in snapshot.edge_data.iter() {
-            graph.edge_data.set(key, data.clone());
+            self.edge_data.set(key, data.clone());
         }
-
-        graph
     }
 
     /// Intern an edge type string, returning its ID.
